@@ -6,6 +6,7 @@ HOOK_COMMITS = subprocess.run(["git", "-C", "/repo", "log", "--format=%h %s"], c
 HOOK_COMMITS = [l.split()[0] for l in HOOK_COMMITS if l.split(" ", 1)[1].startswith("verif hooks")]
 
 ENGINES = {
+ "crashx": ("harness/src/crashx.rs, harness/src/props/crash.rs, shim/vshim.c", "LD_PRELOAD tracer records every mutating libc call of a worker process running the real store; the parent replays the trace into a file-system model, enumerates every crash point x image family, materialises each distinct image and recovers it with the real store; tracer self-check (replayed trace == real directory) on every run"),
  "seqx-component": ("harness/src/props/c04.rs, c12.rs, c13.rs, c18.rs", "bounded-exhaustive enumeration against real components reached through the cfg(surrealkv_verif) facades (conflict oracle, commit-log writer/reader/repair, table writer/reader, B+tree), each compared with a small reference model"),
  "seqx-txn": ("harness/src/props/c08.rs, harness/src/props/c09.rs", "bounded-exhaustive programs (transaction calls / cursor calls) against the real Transaction API on stores built by a construction script, compared call by call with a reference model"),
  "seqx-world": ("harness/src/world.rs", "bounded-exhaustive operation sequences on the real store under a harness-driven single-threaded runtime (background tasks run only where the sequence says), compared with a reference model after every step; stateless re-execution from a fresh directory"),
@@ -21,8 +22,8 @@ CHECKS = {
   text="Every logical history of n single-write transactions over two colliding keys and four write kinds, crossed with every placement of up to d physical operations (rotate, flush, compaction round, background drain, clean reopen), is executed on the real store for each option set of a fixed list; after every step all point reads and both scan directions of a fresh transaction are compared with a map model.",
   note="Exhaustive only within the stated bounds (n, d) and the fixed option-set list; keys/values are a fixed small alphabet; single-threaded (background tasks run only where the sequence says).", ref="DESIGN.md §5 C06"),
  "C07": dict(engine="seqx-world", cat="model_checking", tech=SEQ_TECH,
-  text="Every sequence of n commits over a 3-letter alphabet and d flush/compaction operations is followed by clean close, reopen (must succeed with the model's content), a probe commit (must be visible), flush and a second reopen; plus memtable-overflow and oversize-transaction scenarios.",
-  note="Clean-close part of the property; crash images and crashes inside recovery are enumerated by the crash engine (claimed separately when built). Exhaustive within (n, d) bounds and the fixed option sets.", ref="DESIGN.md §5 C07"),
+  text="(a) Every sequence of n commits over a 3-letter alphabet and d flush/compaction operations is followed by clean close, reopen (must succeed with the model's content), a probe commit (must be visible), flush and a second reopen; plus memtable-overflow and oversize-transaction scenarios. (b) Every crash image of the crashx enumeration (process and power-loss families at every file-system call) is opened, crashed again, opened again (same content), given a probe commit (visible), flushed, closed and opened a third time (probe and content intact).",
+  note="Exhaustive within (n, d) bounds, the fixed option sets and the crashx workload bounds; crash model as stated in C02.", ref="DESIGN.md §5 C07"),
  "C08": dict(engine="seqx-txn", cat="model_checking", tech=SEQ_TECH,
   text="Every transaction program up to a length bound over set / delete / soft delete / replace / explicit-timestamp set on adversarial keys and values, set_savepoint and rollback_to_savepoint, in each mode and with each terminal (commit, rollback, drop), runs on the real store; after every call the result class and all reads (get of every key, both scan directions) are compared with a pending-write-list model, then the closed transaction must reject every call and a fresh transaction must see exactly the surviving writes or nothing.",
   note="Exhaustive within the program-length bound and the fixed key/value alphabet; one pre-populated snapshot shape (live, deleted, absent key).", ref="DESIGN.md §5 C08"),
@@ -41,6 +42,12 @@ CHECKS = {
  "C18": dict(engine="seqx-component", cat="model_checking", tech="explicit-state BFS over the real B+tree with exact state identity (file bytes) + stateless enumeration of live operation lists, vs. BTreeMap and a page audit",
   text="Breadth-first search over insert (three size classes incl. overflow chains) / delete on skewed key sets under both comparators; a state is the exact file content after flush, every transition reopens the tree from the state's bytes, applies one operation, compares get / range / cursor (forward, backward, seek) with a BTreeMap and audits every page (reachable + free list = all pages, disjoint, header counter, leaf chain); a second pass runs all short operation lists on one live tree (warm node cache) followed by a reopen. Seeds include a prefilled 3-level tree.",
   note="Exhaustive to the stated depth from each seed state; state identity is a 64-bit hash of the file bytes; key sets and size classes are fixed lists chosen to force splits, merges, redistribution, overflow and free-list reuse.", ref="DESIGN.md §5 C18"),
+ "C02": dict(engine="crashx", cat="fault_enumeration", tech="exhaustive crash-point x torn-write enumeration over traced executions of the real store (LD_PRELOAD tracer), recovered by the real store and compared with the model of acknowledged commits",
+  text="Workloads (every op list up to a length bound over commits with both durabilities, multi-key commits, deletes, flush, compaction, rotation, background drain, reopen, synced WAL flush; plus rotation families against a tiny memtable) run in a traced worker; for every crash point (after every file-system call) the process-crash image and the power-loss family (all unsynced data dropped; one file keeps each prefix of its unsynced writes with the last one torn) are built, de-duplicated and recovered with the real store; every acknowledged (process model) or durably acknowledged (power model) commit must be present. A second generation (crash, recover, commit, crash) runs from distinct recovered images.",
+  note="Crash model as stated in the property (namespace operations in order; per-file prefix of unsynced writes). Concurrent committers are not part of this check. Generation 2 covers a capped, priority-ordered subset of recovered images (reported).", ref="DESIGN.md §5 C02"),
+ "C03": dict(engine="crashx", cat="fault_enumeration", tech="exhaustive crash-point x torn-write enumeration over traced executions of the real store, recovered content compared with every prefix of the commit order",
+  text="Same image enumeration as C02 (shared engine, separate verdict): the full scan of every recovered image must equal the map model at one prefix of the commit order, no transaction partially present, nothing deleted or overwritten within the prefix reappearing; includes crash points inside flush, manifest replacement, compaction (output, manifest switch, input deletion), WAL repair and orphan clean-up during the traced recovery of second-generation runs.",
+  note="Sequential commit order (single committer). Crash model as stated in C02.", ref="DESIGN.md §5 C03"),
 }
 
 NOT_YET = {}
@@ -65,7 +72,7 @@ na = [{"property_id": p, "reason": NOT_YET.get(p, "check not built yet (work in 
 used = sorted({c["engine"] for c in CHECKS.values()})
 m = {
  "version": 1,
- "setup_cmd": "cd /verif/harness && CARGO_NET_OFFLINE=true cargo build --release --offline",
+ "setup_cmd": "cd /verif/harness && CARGO_NET_OFFLINE=true cargo build --release --offline && /verif/shim/build.sh",
  "hooks": {
   "guard": "--cfg surrealkv_verif",
   "enable": "rustflags = [\"--cfg\", \"surrealkv_verif\"] in /verif/harness/.cargo/config.toml; the harness has a path dependency on /repo, so every check rebuilds from /repo's working tree",
